@@ -212,7 +212,7 @@ def write_if_changed(path, text):
         open(path, "w").write(text)
 
 
-def generate(gen_dir, report, lean_root=None):
+def generate(gen_dir, report, lean_root=None, attempt_all=False):
     lean_root = lean_root or os.path.join(os.path.dirname(os.path.dirname(os.path.abspath(__file__))), "lean")
     methods = parse_methods(gen_dir)
     cls_thms = parse_cls_theorems(lean_root)
@@ -233,7 +233,7 @@ def generate(gen_dir, report, lean_root=None):
         if "M" in m["kinds"] and re.fullmatch(r"(ldr|str)_mem_[sdbwx]", n):
             skipped[n] = "memory-operand sequence (Props/C08 memory theorems)"
             continue
-        if n in UNPROVED:
+        if n in UNPROVED and not attempt_all:
             unproved.append(n)
             continue
         txt, why = theorem_text(n, m["kinds"], methods, cls_thms)
@@ -268,6 +268,6 @@ def generate(gen_dir, report, lean_root=None):
 
 if __name__ == "__main__":
     rep = json.load(open(sys.argv[2]))
-    info = generate(sys.argv[1], rep, sys.argv[3] if len(sys.argv) > 3 else None)
+    info = generate(sys.argv[1], rep, sys.argv[3] if len(sys.argv) > 3 and sys.argv[3] != "--all" else None, attempt_all="--all" in sys.argv)
     print("gen_c08_thms: %d theorems in %d modules, %d single-instruction methods unproved, %d other methods skipped"
           % (len(info["theorems"]), len(info["modules"]), len(info["unproved"]), len(info["skipped"])))
